@@ -525,6 +525,41 @@ fn line_n(t: &[&str]) -> Option<usize> {
     }
 }
 
+/// every view of a two-level form in one string - cubes, conversion to a Lut by reference and by
+/// value, `is_zero` / `is_one`, text - and whether the views describe one function (`value()` on
+/// every assignment for n <= 10 against the table).  Seed C13-j: a table cached inside the object
+/// and left stale by one operator form.
+macro_rules! views {
+    ($x:expr, $show:ident) => {{
+        let x = &$x;
+        let n = x.num_vars();
+        let l = Lut::from(x);
+        let l2 = Lut::from(x.clone());
+        let sig = format!("{}|{}|{}|{}|{}", $show(x.cubes()), sh(&l), x.is_zero(), x.is_one(), x);
+        let mut consistent = l.num_vars() == n && l == l2;
+        if n <= 10 && consistent {
+            for m in 0..(1usize << n) {
+                if x.value(m) != l.value(m) {
+                    consistent = false;
+                    break;
+                }
+            }
+        }
+        (sig, consistent)
+    }};
+}
+
+/// all results of the forms of one operator must have the same views, each consistent
+fn same_views(v: &[(String, bool)]) -> Option<&'static str> {
+    if v.iter().any(|x| !x.1) {
+        return Some("ok views-disagree");
+    }
+    if v.iter().any(|x| x.0 != v[0].0) {
+        return Some("ok forms-disagree");
+    }
+    None
+}
+
 fn run_sop_ops(t: &[&str]) -> Option<String> {
     let hexu = |s: &str| usize::from_str_radix(s, 16).ok();
     Some(match (t[0], *t.get(1)?, t.len()) {
@@ -681,6 +716,83 @@ fn run_sop_ops(t: &[&str]) -> Option<String> {
             let s = Sop::from_cubes(us(t[2])?, parse_cubes(t[3])?);
             format!("ok {}", show_cubes(s.cubes()))
         }
+        ("sop", "expr", _) if t.len() >= 4 => {
+            // RPN expression over cube lists: `&`, `|`, `!` (nesting, seed C14-k: a step whose
+            // product list is long takes another path)
+            let n = us(t[2])?;
+            let mut st: Vec<Sop> = Vec::new();
+            for tok in &t[3..] {
+                match *tok {
+                    "&" | "|" => {
+                        let b = st.pop()?;
+                        let a = st.pop()?;
+                        // forms alternate with the depth of the stack
+                        let r = match (*tok, st.len() % 4) {
+                            ("&", 0) => &a & &b,
+                            ("&", 1) => a & &b,
+                            ("&", 2) => &a & b,
+                            ("&", _) => a & b,
+                            (_, 0) => &a | &b,
+                            (_, 1) => a | &b,
+                            (_, 2) => &a | b,
+                            (_, _) => a | b,
+                        };
+                        st.push(r);
+                    }
+                    "!" => {
+                        let a = st.pop()?;
+                        st.push(if st.len() % 2 == 0 { !&a } else { !a });
+                    }
+                    _ => st.push(Sop::from_cubes(n, parse_cubes(tok)?)),
+                }
+            }
+            if st.len() != 1 {
+                return None;
+            }
+            let r = st.pop()?;
+            if r.num_vars() != n {
+                return Some("ok wrong-num-vars".into());
+            }
+            if n <= 10 && !views!(r, show_cubes).1 {
+                return Some("ok views-disagree".into());
+            }
+            format!("ok {}", show_cubes(r.cubes()))
+        }
+        ("esop", "expr", _) if t.len() >= 4 => {
+            let n = us(t[2])?;
+            let mut st: Vec<Esop> = Vec::new();
+            for tok in &t[3..] {
+                match *tok {
+                    "^" => {
+                        let b = st.pop()?;
+                        let a = st.pop()?;
+                        let r = match st.len() % 4 {
+                            0 => &a ^ &b,
+                            1 => a ^ &b,
+                            2 => &a ^ b,
+                            _ => a ^ b,
+                        };
+                        st.push(r);
+                    }
+                    "!" => {
+                        let a = st.pop()?;
+                        st.push(if st.len() % 2 == 0 { !&a } else { !a });
+                    }
+                    _ => st.push(Esop::from_cubes(n, parse_cubes(tok)?)),
+                }
+            }
+            if st.len() != 1 {
+                return None;
+            }
+            let r = st.pop()?;
+            if r.num_vars() != n {
+                return Some("ok wrong-num-vars".into());
+            }
+            if n <= 10 && !views!(r, show_cubes).1 {
+                return Some("ok views-disagree".into());
+            }
+            format!("ok {}", show_cubes(r.cubes()))
+        }
         ("sop", "and", 5) | ("sop", "or", 5) => {
             let n = us(t[2])?;
             let a = Sop::from_cubes(n, parse_cubes(t[3])?);
@@ -699,6 +811,17 @@ fn run_sop_ops(t: &[&str]) -> Option<String> {
             if r1.num_vars() != n {
                 return Some("ok wrong-num-vars".into());
             }
+            if n <= 10 {
+                // operands that were looked at before (and clones of them), owned and borrowed
+                let (at, bt) = (a.clone(), b.clone());
+                let _ = (views!(at, show_cubes), views!(bt, show_cubes));
+                let (ac, bc) = (at.clone(), bt.clone());
+                let (r5, r6, r7) = if t[1] == "and" { (&at & &bt, ac & &bt, at & bc) } else { (&at | &bt, ac | &bt, at | bc) };
+                let v = [views!(r1, show_cubes), views!(r2, show_cubes), views!(r3, show_cubes), views!(r4, show_cubes), views!(r5, show_cubes), views!(r6, show_cubes), views!(r7, show_cubes)];
+                if let Some(e) = same_views(&v) {
+                    return Some(e.into());
+                }
+            }
             format!("ok {}", show_cubes(r1.cubes()))
         }
         ("sop", "not", 4) => {
@@ -710,6 +833,16 @@ fn run_sop_ops(t: &[&str]) -> Option<String> {
             }
             if r1.num_vars() != a.num_vars() {
                 return Some("ok wrong-num-vars".into());
+            }
+            if a.num_vars() <= 10 {
+                let at = a.clone();
+                let _ = views!(at, show_cubes);
+                let ac = at.clone();
+                let (r3, r4) = (!&at, !ac);
+                let v = [views!(r1, show_cubes), views!(r2, show_cubes), views!(r3, show_cubes), views!(r4, show_cubes)];
+                if let Some(e) = same_views(&v) {
+                    return Some(e.into());
+                }
             }
             format!("ok {}", show_cubes(r1.cubes()))
         }
@@ -769,6 +902,16 @@ fn run_sop_ops(t: &[&str]) -> Option<String> {
             if r1.num_vars() != n {
                 return Some("ok wrong-num-vars".into());
             }
+            if n <= 10 {
+                let (at, bt) = (a.clone(), b.clone());
+                let _ = (views!(at, show_cubes), views!(bt, show_cubes));
+                let (ac, bc) = (at.clone(), bt.clone());
+                let (r5, r6, r7) = (&at ^ &bt, ac ^ &bt, at ^ bc);
+                let v = [views!(r1, show_cubes), views!(r2, show_cubes), views!(r3, show_cubes), views!(r4, show_cubes), views!(r5, show_cubes), views!(r6, show_cubes), views!(r7, show_cubes)];
+                if let Some(e) = same_views(&v) {
+                    return Some(e.into());
+                }
+            }
             format!("ok {}", show_cubes(r1.cubes()))
         }
         ("esop", "not", 4) => {
@@ -780,6 +923,16 @@ fn run_sop_ops(t: &[&str]) -> Option<String> {
             }
             if r1.num_vars() != a.num_vars() {
                 return Some("ok wrong-num-vars".into());
+            }
+            if a.num_vars() <= 10 {
+                let at = a.clone();
+                let _ = views!(at, show_cubes);
+                let ac = at.clone();
+                let (r3, r4) = (!&at, !ac);
+                let v = [views!(r1, show_cubes), views!(r2, show_cubes), views!(r3, show_cubes), views!(r4, show_cubes)];
+                if let Some(e) = same_views(&v) {
+                    return Some(e.into());
+                }
             }
             format!("ok {}", show_cubes(r1.cubes()))
         }
@@ -821,6 +974,16 @@ fn run_sop_ops(t: &[&str]) -> Option<String> {
             }
             if r1.num_vars() != n {
                 return Some("ok wrong-num-vars".into());
+            }
+            if n <= 10 {
+                let (at, bt) = (a.clone(), b.clone());
+                let _ = (views!(at, show_ecubes), views!(bt, show_ecubes));
+                let (ac, bc) = (at.clone(), bt.clone());
+                let (r5, r6, r7) = (&at | &bt, ac | &bt, at | bc);
+                let v = [views!(r1, show_ecubes), views!(r2, show_ecubes), views!(r3, show_ecubes), views!(r4, show_ecubes), views!(r5, show_ecubes), views!(r6, show_ecubes), views!(r7, show_ecubes)];
+                if let Some(e) = same_views(&v) {
+                    return Some(e.into());
+                }
             }
             format!("ok {}", show_ecubes(r1.cubes()))
         }
